@@ -53,7 +53,7 @@ def plan(tier, seed):
 def mandatory(tier):
     return [
         "route/origin", "route/center", "dir/identity", "dir/perm", "dir/rot", "D/2", "D/3",
-        "from_sitk", "image_sitk", "from_file", "index_outside", "index_inside", "grid_attrs",
+        "from_sitk", "image_sitk", "from_file", "index_outside", "index_inside", "grid_attrs", "grid_attrs/interpolate",
         "file_route/.mha", "file_route/.nii.gz", "file_route/.nrrd", "file_route/.mhd",
     ]
 
@@ -187,6 +187,23 @@ def run_item(ctx, item):
         corner = tuple(int(k) - 1 for k in size)
         ctx.true("attrs_points_shape", tuple(pts.shape) == tuple(int(k) for k in size[::-1]) + (D,), key="GridAttrs/points", got=list(pts.shape))
         ctx.close("attrs_last_point_vs_itk", pts[tuple(corner[::-1])], np.array(img.TransformIndexToPhysicalPoint([int(c) for c in corner])), 1e-10 * scale, key="GridAttrs/points")
+        # the attributes in use: a world-linear ramp image interpolated at physical points inside the image is the ramp
+        # (numpy resampling helpers of utils.simpleitk.sample, which map world -> index through these attributes)
+        if min(size) >= 2:
+            from deepali.utils.simpleitk.sample import interpolate_ndimage, interpolate_regular_grid
+
+            coef = rng.normal(size=D)
+            allidx = np.stack(np.meshgrid(*[np.arange(int(k)) for k in size[::-1]], indexing="ij"), axis=-1)[..., ::-1].astype(np.float64)
+            allphys = allidx @ ref.A.T + ref.o
+            ramp_img = sitk.GetImageFromArray((allphys @ coef).astype(np.float64))
+            ramp_img.CopyInformation(img)
+            q_idx = rng.uniform(0.05, 0.95, size=(9, D)) * (n - 1)
+            q_phys = np.array([img.TransformContinuousIndexToPhysicalPoint([float(v) for v in row]) for row in q_idx])
+            want = q_phys @ coef
+            rtol = 1e-9 * (1 + float(np.abs(allphys @ coef).max())) + (1e-9 + 8 * orth) * iscale * float(np.abs(coef * np.asarray(spacing)).sum())
+            ctx.close("attrs_interpolate_ndimage_of_ramp", interpolate_ndimage(ramp_img, q_phys), want, rtol, key="GridAttrs/interpolate")
+            ctx.close("attrs_interpolate_regular_grid_of_ramp", interpolate_regular_grid(ramp_img, q_phys), want, rtol, key="GridAttrs/interpolate")
+            ctx.bucket("grid_attrs/interpolate")
         # both construction routes describe the same grid: center -> origin -> center
         c0 = np.array(ga.center)
         via_center = GridAttrs(size=ga.size, center=tuple(c0), spacing=ga.spacing, direction=ga.direction)
